@@ -29,7 +29,8 @@ LabelsUpTo(n) == { l \in UNION { [1..k -> LabChars] : k \in 0..n } : Trimmed(l) 
 Spell == {"int", "dec", "exp", "dexp", "plusexp", "neg0", "trail0"}
 Nm(id, sp) == [id |-> id, sp |-> sp]
 Names == {<<C("O", "n")>>, <<C("Q", 0), C("O", "item"), C("SP", 0), C("O", "[2]:")>>, <<C("Q", 0), C("O", "IntervalTier"), C("Q", 0)>>}
-PtLabels == {<<>>, <<C("Q", 0)>>, <<C("O", "x"), C("Q", 0), C("Q", 0)>>, <<C("O", "text"), C("SP", 0), C("O", "="), C("SP", 0), C("Q", 0), C("O", "x"), C("Q", 0)>>}
+PtLabels == {<<>>, <<C("Q", 0)>>, <<C("O", "x"), C("Q", 0), C("Q", 0)>>, <<C("O", "text"), C("SP", 0), C("O", "="), C("SP", 0), C("Q", 0), C("O", "x"), C("Q", 0)>>,
+             <<C("O", "x"), C("SP", 0), C("O", "IntervalTier")>>}       \* the class word inside a mark (not the whole mark, not quoted)
 MkDoc(s1, s2, nm, l1, l2) ==
   [lo |-> Nm(0, s1), hi |-> Nm(9, "int"),
    tiers |-> << [kind |-> "I", name |-> nm, lo |-> Nm(0, "neg0"), hi |-> Nm(9, s2),
@@ -47,7 +48,8 @@ ThreeTiers(n1, n2, n3) ==
   [lo |-> Nm(0, "int"), hi |-> Nm(9, "int"),
    tiers |-> << [kind |-> "I", name |-> n1, lo |-> Nm(0, "int"), hi |-> Nm(9, "int"),
                  ents |-> << [s |-> Nm(0, "int"), e |-> Nm(1, "dec"), l |-> <<>>], [s |-> Nm(1, "dec"), e |-> Nm(2, "dec"), l |-> <<C("O", "x")>>] >>],
-                [kind |-> "P", name |-> n2, lo |-> Nm(0, "int"), hi |-> Nm(9, "int"),
+                \* (this tier's own span ends before the file's)
+                [kind |-> "P", name |-> n2, lo |-> Nm(0, "int"), hi |-> Nm(3, "dec"),
                  ents |-> << [t |-> Nm(1, "dec"), l |-> <<>>], [t |-> Nm(3, "dec"), l |-> <<C("O", "x")>>] >>],
                 [kind |-> "I", name |-> n3, lo |-> Nm(0, "int"), hi |-> Nm(9, "int"), ents |-> <<>>] >>]
 DocsC == { ThreeTiers(n1, n2, n3) : n1 \in {NmN}, n2 \in {NmN, NmN2, <<C("O", "p")>>}, n3 \in {NmN, NmN2, <<C("O", "x")>>} }
